@@ -1,18 +1,21 @@
 """C17 - launcher tasks do what they say or are rejected (spec/Launcher.tla).
 
 (1) TLC explores every history of <=K tasks (create / launch / continue / unknown type x persist x nowait x tag {None, t} x
-    process class {Fin, Exc, Wait}) interleaved with turns of the event loop, resumes and checkpoints taken by the environment,
+    process class {Fin, Exc, Wait; Late: finishes, then fails in on_finished, so that its future is replaced; Chain: a WorkChain
+    whose context - a saved member - changes while it runs}) interleaved with turns of the event loop, resumes and checkpoints taken by the environment,
     for every configuration (persister: none / InMemory / Pickle; loader: default / custom, its aliases known to the configured
     instance only; launcher built with / without a caller-supplied load_context; constructor-argument style), and checks
     the operational mirror of ProcessLauncher against the declarative properties CreateOK, LaunchOK, ContinueOK, NowaitReply,
-    WaitingReply, RejectOK, LoaderUsed, ...;
+    WaitingReply, FutureIsOutcome, RejectOK, LoaderUsed, ...;
 (2) state graphs are dumped and EVERY maximal behaviour is replayed on the real ProcessLauncher on the single-stepping loop
     (harness/launcher_real.py): half of them by calling the launcher directly, the others through
     controller -> in-process communicator wrapped by LoopCommunicator -> launcher as task subscriber (RemoteProcessController and
     RemoteProcessThreadController, create+continue pairs also as one execute_process call).  After every action the reply
-    futures, the persister content, the processes with their step traces and the loader log are compared with the specification.
+    futures, the persister content (state, outputs, context and error of the process each checkpoint describes), the processes with
+    their step traces, contexts and errors, and the loader log are compared with the specification.
 """
 import collections
+import concurrent.futures
 import json
 import multiprocessing
 import os
@@ -28,7 +31,7 @@ VERIF = os.path.dirname(os.path.dirname(os.path.dirname(os.path.abspath(__file__
 # repairs present in /repo (identifiers of spec/Launcher.tla); none so far
 FIXES = []
 
-INVS = ['TypeOK', 'NoUnlistedDeviation', 'CreatedNeverRuns', 'StartedFromSnapshot', 'ReachTermination', 'WaitingReply', 'LoaderUsed',
+INVS = ['TypeOK', 'NoUnlistedDeviation', 'CreatedNeverRuns', 'StartedFromSnapshot', 'ReachTermination', 'FutureIsOutcome', 'WaitingReply', 'LoaderUsed',
         'NoLoaderFailure']
 PROPS = ['RejectOK', 'CreateOK', 'LaunchOK', 'ContinueOK', 'NowaitReply', 'RepliesStable', 'LoopNeverPersists']
 
@@ -36,10 +39,16 @@ BASES = [dict(hasP=False, kind='none', loader='default'), dict(hasP=False, kind=
          dict(hasP=True, kind='mem', loader='default'), dict(hasP=True, kind='mem', loader='custom'),
          dict(hasP=True, kind='pickle', loader='default'), dict(hasP=True, kind='pickle', loader='custom')]
 ARGS = ['none', 'pos', 'kw', 'bad']
-ALL_CLASSES = ['Fin', 'Exc', 'Wait']
+OLD_CLASSES = ['Fin', 'Exc', 'Wait']
+# Late: FINISHED, then on_finished raises -> EXCEPTED with a replaced process future; Chain: WorkChain with working data in self.ctx
+NEW_CLASSES = ['Late', 'Chain']
+ALL_CLASSES = OLD_CLASSES + NEW_CLASSES
 
 ASSUMPTIONS = [
-    'process classes: Fin (emits outputs and finishes), Exc (raises), Wait (waits for resume(), then finishes); constructor arguments '
+    'process classes: Fin (emits outputs and finishes), Exc (raises), Wait (waits for resume(), then finishes), Late (finishes, then '
+    'raises in on_finished: ends EXCEPTED with a replaced future), Chain (WorkChain, outline of two steps, working data in self.ctx); '
+    'the quick tier explores histories over {Fin, Exc, Wait} and over {Late, Chain} separately, the thorough tier also mixed ones; '
+    'constructor arguments '
     'inputs={v: 7} positionally / by keyword / absent / invalid (one style per history)',
     'configurations are consistent: the InMemoryPersister gets the launcher\'s loader, the sender identifies classes with the same '
     'loader, the custom loader extends DefaultObjectLoader and keeps its aliases in a per-instance table (PicklePersister has no loader parameter: its bundles carry default names)',
@@ -47,7 +56,8 @@ ASSUMPTIONS = [
     'TaskRejected anywhere in the chain of futures passes the task on; nobody left = TaskRejected outcome); no_reply is not explored',
     'a turn of the loop is atomic (everything ready runs); resume() is followed by a turn of the loop; which exception class a missing '
     'checkpoint raises is C14\'s business (KeyError / FileNotFoundError / PersistenceError all count as NoCheckpoint)',
-    'checkpoints are looked into by recreating the process they describe from a pickled copy of the stored bundle',
+    'checkpoints are looked into by recreating the process they describe from a pickled copy of the stored bundle, after every '
+    'action (so a checkpoint that changes without having been written again is seen)',
 ]
 
 
@@ -308,51 +318,59 @@ def run(tier, seed):
     coin = lambda: (rng.random() < 0.5,)                                   # noqa: E731
     none_d, none_c, mem_d, mem_c, pic_d, pic_c = BASES
     if tier == 'quick':
-        mcs = [dict(name='MC_C17_K2', cfgs=full, k=2, saves=1, classes=ALL_CLASSES)]
+        mcs = [dict(name='MC_C17_K2', cfgs=full, k=2, saves=1, classes=OLD_CLASSES),
+               dict(name='MC_C17_K2_LateChain', cfgs=full, k=2, saves=1, classes=NEW_CLASSES)]
         # replay: no persister (both loaders), custom loader on both persisters WITH a caller-supplied load context (in-memory:
         # keyword arguments, also without the context; pickle: a seeded argument style), default loader on one seeded persister,
         # invalid arguments on one seeded configuration
         sel = (configs([none_d], ['kw'], coin()) + configs([none_c], ['kw'], coin()) + configs([mem_c], ['kw'], both)
                + configs([pic_c], [rng.choice(['kw', 'none', 'pos'])], (True,)) + configs([rng.choice([mem_d, pic_d])], ['kw'], coin())
                + configs(rng.sample(BASES[2:], 1), ['bad'], coin()))
-        rps = [dict(name='MC_C17_dump_K2', cfgs=sel, k=2, saves=1, classes=ALL_CLASSES)]
+        # the classes with a replaced future / a context: the in-memory persister (it keeps bundles, not bytes) with keyword
+        # arguments, the pickle persister and no persister with seeded loader, argument style and load context
+        new = (configs([rng.choice([mem_d, mem_c])], ['kw'], coin())
+               + configs([rng.choice([pic_d, pic_c])], [rng.choice(['kw', 'none', 'pos'])], coin())
+               + configs([rng.choice([none_d, none_c])], [rng.choice(['kw', 'none', 'pos'])], coin()))
+        rps = [dict(name='MC_C17_dump_K2', cfgs=sel, k=2, saves=1, classes=OLD_CLASSES),
+               dict(name='MC_C17_dump_K2_LateChain', cfgs=new, k=2, saves=1, classes=NEW_CLASSES)]
     else:
         # K=3: the load-context dimension in full for keyword arguments, seeded for the other argument styles
         k3 = configs(BASES, ['kw'], both) + [c for a in ('none', 'pos', 'bad') for b in BASES for c in configs([b], [a], coin())]
-        mcs = [dict(name='MC_C17_K3', cfgs=k3, k=3, saves=1, classes=ALL_CLASSES),
+        mcs = [dict(name='MC_C17_K3', cfgs=k3, k=3, saves=1, classes=OLD_CLASSES),
+               dict(name='MC_C17_K3_LateChain', cfgs=k3, k=3, saves=1, classes=NEW_CLASSES + ['Wait']),
                dict(name='MC_C17_K2_S2', cfgs=full, k=2, saves=2, classes=ALL_CLASSES)]
         k2 = configs([none_c, mem_c, pic_c], ARGS, both) + [c for b in (none_d, mem_d, pic_d) for a in ARGS for c in configs([b], [a], coin())]
-        rps = [dict(name='MC_C17_dump_K2', cfgs=k2, k=2, saves=1, classes=ALL_CLASSES),
+        rps = [dict(name='MC_C17_dump_K2', cfgs=k2, k=2, saves=1, classes=OLD_CLASSES),
                # three tasks: one seeded configuration with a persister per class family, every transition of the graph covered
                dict(name='MC_C17_dump_K3_Wait', cfgs=configs(rng.sample(BASES[2:], 1), ['kw'], coin()) + configs(BASES[:1], ['bad']),
                     k=3, saves=1, classes=['Wait'], cover=True),
                dict(name='MC_C17_dump_K3_FinExc', cfgs=configs(rng.sample(BASES[2:], 1), ['pos'], coin()), k=3, saves=1,
-                    classes=['Fin', 'Exc'], cover=True)]
+                    classes=['Fin', 'Exc'], cover=True),
+               dict(name='MC_C17_dump_K3_LateChain', cfgs=configs([rng.choice([mem_d, mem_c])], ['kw'], coin()), k=3, saves=1,
+                    classes=NEW_CLASSES, cover=True),
+               # two tasks over all five classes (histories mixing the families): every base configuration, seeded argument
+               # style and load context
+               dict(name='MC_C17_dump_K2_all', cfgs=[c for b in BASES for c in configs([b], [rng.choice(ARGS[:3])], coin())], k=2,
+                    saves=1, classes=ALL_CLASSES)]
 
-    violations = 0
-    states = transitions = 0
-    mc_summ = []
-    for m in mcs:
+    def model_check(m):
         tla, cfg = mc(m['name'], m['cfgs'], m['k'], m['saves'], m['classes'], fx, known)
         with tlc.Workdir() as wd:
             wd.write(m['name'] + '.tla', tla)
             wd.write(m['name'] + '.cfg', cfg)
-            res = tlc.run(wd, m['name'] + '.tla', m['name'] + '.cfg', timeout=3000, heap='12g')
-        states += res.distinct
-        transitions += res.generated
-        mc_summ.append({'instance': m['name'], 'K': m['k'], 'saves': m['saves'], 'configurations': len(m['cfgs']), 'classes': m['classes'],
-                        'distinct_states': res.distinct, 'states_generated': res.generated, 'depth': res.depth,
-                        'checked': INVS + PROPS, 'violated': res.violated, 'wall_s': round(res.wall, 1)})
-        if res.violated:
-            tr = res.trace()
-            path = write_replay('tlc', {'kind': 'tlc-counterexample', 'violated': res.violated, 'instance': m['name'], 'fixes': fx,
-                                        'known': known, 'trace': [{'action': a, 'state': s} for a, s in tr]})
-            print('TLC: %s violated in %s (Fixes=%s, Known=%s)' % (res.violated, m['name'], fx, known))
-            print('VIOLATION property=%s replay=%s' % (PID, path))
-            violations += 1
-        elif not res.ok:
-            raise tlc.MachineryError('TLC did not complete on %s:\n%s' % (m['name'], res.out[-3000:]))
+            return tlc.run(wd, m['name'] + '.tla', m['name'] + '.cfg', timeout=3000, heap='12g', workers=max(2, procs // 2) if tier == 'quick' else None)
 
+    # the model-checking runs proceed one after the other; in the quick tier (small state spaces) in the background, while the
+    # state graphs are dumped and replayed; in the thorough tier (10^7 states, 12g heap) they finish first
+    mc_pool = concurrent.futures.ThreadPoolExecutor(max_workers=1)
+    mc_jobs = [mc_pool.submit(model_check, m) for m in mcs]
+    mc_pool.shutdown(wait=False)
+    if tier != 'quick':
+        concurrent.futures.wait(mc_jobs)
+        for job in mc_jobs:
+            job.result()            # a machinery failure is reported at once
+
+    violations = 0
     replayed = nontrivial = 0
     devs = set()
     samples, rp_summ = [], []
@@ -375,14 +393,32 @@ def run(tier, seed):
                                                                json.dumps(d['diffs'][:2], default=str)[:600]))
             print('VIOLATION property=%s replay=%s' % (PID, path))
         violations += len(g['bad'])
+    states = transitions = 0
+    mc_summ = []
+    for m, job in zip(mcs, mc_jobs):
+        res = job.result()
+        states += res.distinct
+        transitions += res.generated
+        mc_summ.append({'instance': m['name'], 'K': m['k'], 'saves': m['saves'], 'configurations': len(m['cfgs']), 'classes': m['classes'],
+                        'distinct_states': res.distinct, 'states_generated': res.generated, 'depth': res.depth,
+                        'checked': INVS + PROPS, 'violated': res.violated, 'wall_s': round(res.wall, 1)})
+        if res.violated:
+            tr = res.trace()
+            path = write_replay('tlc', {'kind': 'tlc-counterexample', 'violated': res.violated, 'instance': m['name'], 'fixes': fx,
+                                        'known': known, 'trace': [{'action': a, 'state': s} for a, s in tr]})
+            print('TLC: %s violated in %s (Fixes=%s, Known=%s)' % (res.violated, m['name'], fx, known))
+            print('VIOLATION property=%s replay=%s' % (PID, path))
+            violations += 1
+        elif not res.ok:
+            raise tlc.MachineryError('TLC did not complete on %s:\n%s' % (m['name'], res.out[-3000:]))
     unlisted = sorted(d for d in devs if d not in known)
     findings.print_known(PID, devs)
     cov = {
         'states': max(states, 1), 'transitions': max(transitions, 1), 'traces_validated_against_impl': replayed,
         'samples': samples or [{'note': 'no behaviour replayed'}], 'evaluations': replayed, 'distinct_nontrivial': nontrivial,
         'rule': 'a behaviour is one maximal path of a dumped TLC state graph: a configuration and <=K tasks from create/launch/continue/'
-                'unknown x persist x nowait x tag {None,t} x class, interleaved with runloop / resume / save(instance, tag) (<=1 save); '
-                'every maximal path of the K=2 graphs (thorough: plus paths covering every transition of the K=3 graphs of two seeded '
+                'unknown x persist x nowait x tag {None,t} x class (quick: the families {Fin,Exc,Wait} and {Late,Chain} in separate graphs), interleaved with runloop / resume / save(instance, tag) (<=1 save); '
+                'every maximal path of the K=2 graphs (thorough: also of a K=2 graph over all five classes, plus paths covering every transition of the K=3 graphs of three seeded '
                 'configurations) is replayed once on a seeded route (direct call or controller->LoopCommunicator->launcher); non-trivial = at least one task constructed or recreated a process; behaviours are '
                 'distinct paths',
         'exhaustive': True, 'model_checking': mc_summ, 'replay': rp_summ, 'replayed_by_route': dict(by_route),
